@@ -51,3 +51,70 @@ TEXT["C10"] = {
     "level_note": "Trusted: Lean kernel (decide +kernel = kernel evaluation, no native_decide), propext/Classical.choice/Quot.sound, extractor, and the model's fidelity to magic.rs/lookup.rs as checked exhaustively over all table entries on every run.",
     "technique": "Lean 4 kernel enumeration per square (decide +kernel) + soundness lemma to all 2^64 occupancies; exhaustive table correspondence",
 }
+HOOK_COMMITS += ["cc9fdf9", "419f76c"]
+TEXT["C01"] = {
+    "level_text": "Kernel-checked theorem generate_moves_exact : for EVERY valid position (consistent bitboards, one king each, side not to move not in check, no pawns on ranks 1/8, castling flags and ep square consistent) the list produced by the model of generate_moves has no duplicates and contains exactly the moves that are legal under the FIDE rules as stated in Spec/Chess.lean (castling, en passant, promotions, pins, checks, double checks), and is_in_check is the rules' check test. Proof layers: table exactness (C10, all occupancies), attack sets / king moves / castling (Lemmas/Attacks*), the seven pseudo-legal generators (Lemmas/Pseudo*), pins-checkers-en-passant filter (Lemmas/Filter*). The model is tied to move_gen.rs by the three-way correspondence (engine vs model vs executable rules) on every run.",
+    "design_ref": "DESIGN.md section 6, C01",
+    "level_note": "Trusted: Lean kernel (incl. decide +kernel for finite geometric facts), standard axioms, the rules spec, model fidelity as explored by the correspondence (ordered move lists compared too).",
+    "technique": "Lean 4 refinement proof (bitboard generator vs mailbox FIDE rules) + three-way differential",
+}
+TEXT["C17"] = {
+    "level_text": "Kernel-checked theorem quiescence_moves_exact: for every valid position, the moves the search examines beyond its nominal depth are exactly the legal moves that capture (incl. en passant), promote or give check (directly or by discovery — the engine's is_check is proved equal to the rules' check test on the successor position), and every legal move when the side to move is in check. Tied to the code by comparing generate_quiescence_moves and the list recorded inside search_until_quiet with model and spec.",
+    "design_ref": "DESIGN.md section 6, C17",
+    "level_note": "Trusted: as C01/C02; hook observing the in-search selection.",
+    "technique": "Lean 4 corollary of C01 + C02 + check-test exactness; three-way differential incl. in-search observation",
+}
+TEXT["C05"] = {
+    "level_text": "Kernel-checked over an abstract game: quiesce_contract and negamax_contract (fail-soft alpha-beta with depth-gated bound table, ordering heuristics and fail-hard quiescence returns a result satisfying the alpha-beta contract w.r.t. plain minimax Spec.V and keeps every table record a true claim), order_is_permutation (ordering only permutes), find_best_move_value (iterative deepening from a sound table: reported score equals the minimax value inside the window and has the same won/lost class beyond it; the returned move is legal and attains the value). Hypotheses exactly as the property scopes them: completed search (no poll returned true), no record from a deeper search reused (instrumented), no hash collision on visited positions, finite quiescence. Two machine-checked counterexamples document why the window hypothesis and the class comparison are needed. The chess instance is tied to search.rs by comparing score, move, node counts, poll counts and a digest of the whole table after every search.",
+    "design_ref": "DESIGN.md section 6, C05",
+    "level_note": "Trusted: Lean kernel, standard axioms; HashMap/Vec/stable sort modelled; HashInj and QFinite are hypotheses; model fidelity as explored (node-count-exact tie).",
+    "technique": "Lean 4 soundness proof of alpha-beta + TT + iterative deepening vs minimax (induction on depth and move list) + node-count-exact differential",
+}
+TEXT["C06"] = {
+    "level_text": "Kernel-checked for every deadline oracle (any poll may be the first to return true): the repetition stack after find_best_move is exactly what it was (repetition_balanced_findBestMove), every transposition-table store happens while no poll has yet returned true (interrupted_search_stores_nothing via a ghost-instrumented copy of the search proved equal to it), so with C05's contract every record left behind is the result of a completed sub-search; a search whose first poll is already true changes nothing at all. The defect named by the property file (interrupted node cached) was reproduced by this check on the pinned code and repaired by a fix: commit.",
+    "design_ref": "DESIGN.md section 6, C06",
+    "level_note": "Trusted: as C05; the clock is abstracted to the poll at which it first reports expiry.",
+    "technique": "Lean 4 invariant proofs over all deadline oracles (ghost-state store log) + exhaustive node-budget sweep with table audit against minimax",
+}
+TEXT["C07"] = {
+    "level_text": "Kernel-checked for every position, deadline and prior state: after the first poll that returns true no further node is entered (no_new_work_after_stop), the oracle is monotone along the run, every loop breaks at its next poll, and the number of polls after expiry is bounded by the recursion depth (bounded_unwinding). What a model cannot exhibit — the wall-clock cost of the unwinding and of the node in flight — is measured black-box on explosive positions against a fixed 400 ms bound.",
+    "design_ref": "DESIGN.md section 6, C07",
+    "level_note": "Proof of the work bound; latency observed, not proved.",
+    "technique": "Lean 4 invariant proof (no node after stop) + hook counters under every node/poll deadline + black-box latency",
+}
+TEXT["C08"] = {
+    "level_text": "Full statements over the abstract game (MateInOnePlayed, AvoidableMateAvoided) with the score-window lemmas proved; the derivation from the alpha-beta contract is still open, so the property is currently decided per run: generated mate-in-one and mixed positions, depths 1..4, answers judged by the executable rules, with the model tied to the engine move-for-move.",
+    "design_ref": "DESIGN.md section 6, C08",
+    "level_note": "Not a closed proof yet.",
+    "technique": "Lean 4 statements + window lemmas; differential with rules-based judging",
+}
+TEXT["C03"] = {
+    "level_text": "Kernel-checked over the abstract game, for EVERY deadline oracle (incl. a zero budget), every depth (incl. 0) and every earlier history of searches: the transposition table only ever holds moves that are legal in the position they are stored for (tt_move_legal_invariant), the answer of find_best_move is a legal move of the position searched, and it is 'no move' exactly when the position has no legal move (bestmove_legal, bestmove_none_iff); handle_go prints exactly one bestmove line. With C01 'legal for the generator' is 'legal under the rules'. The zero-budget defect (bestmove 0000 with legal moves) was reproduced and repaired by a fix: commit. Black-box runs check the real binary's bestmove lines against the spec's legal-move sets incl. real clocks.",
+    "design_ref": "DESIGN.md section 6, C03",
+    "level_note": "Trusted: as C05; HashInj hypothesis (necessary: counterexample in the agent report recorded in DESIGN.md).",
+    "technique": "Lean 4 invariant proof over all deadline oracles and histories + in-process deadline sweep + black-box scripts",
+}
+TEXT["C04"] = {
+    "level_text": "Kernel-checked: fen_roundtrip (parsing the canonical FEN of any consistent board with counters below 65536 yields exactly that board), move-text resolution is unique on valid boards (resolve_unique_valid, from C01), and position_reconstructs_rules: for a valid start board and any move list legal under the rules, 'position fen <FEN> moves <UCI texts>' sets the engine's board — from ANY prior state — to the position prescribed by the rules (fold of Spec.play); same for startpos. Counters up to 65535 parse (the u8 abort on fullmove >= 256 was reproduced and repaired by a fix: commit; the field width is re-extracted from fen.rs).",
+    "design_ref": "DESIGN.md section 6, C04",
+    "level_note": "Trusted: Lean kernel, standard axioms, string functions modelled over List Char (ASCII white space), correspondence through hooks verif_handle_command / verif_board.",
+    "technique": "Lean 4 parser round-trip + refinement through C01/C02 + differential on generated position commands",
+}
+TEXT["C09"] = {
+    "level_text": "Kernel-checked: is_repetition is exactly 'at least two occurrences on the stack' (repetition_detects), a repeated position at ply > 0 is scored 0 before any table probe (draw_scored_zero), the position command clears the recorded history and records exactly the positions it passes through (position_records_history, only_last_position_counts), hence a successor that occurred twice in the game given with the last position command is scored as a draw and one that occurred fewer times is not (third_occurrence_is_draw, below_third_occurrence_no_draw). The defect named by the property file (history never recorded) was reproduced and repaired by a fix: commit.",
+    "design_ref": "DESIGN.md section 6, C09",
+    "level_note": "Trusted: as C04; statements are about hashes, equal to positions under HashInj.",
+    "technique": "Lean 4 proofs over the engine model + differential through the engine's own searcher",
+}
+TEXT["C13"] = {
+    "level_text": "Machine-checked: ucinewgame returns the engine model to its initial state; key-independence simulation theorem in Props/C13.lean when discharged (see evidence). Every run: the real binary is executed in 3 fresh processes per script (independent key draws) and must give identical complete transcripts, equal to the model's transcript under other keys; prefix+ucinewgame+suffix must equal a fresh process on the suffix.",
+    "design_ref": "DESIGN.md section 6, C13",
+    "level_note": "Key independence currently rests on the multi-process comparison plus the structural theorems; HashInj assumed.",
+    "technique": "Lean 4 structural theorems (+ simulation proof when integrated); multi-process black-box determinism check against the model transcript",
+}
+TEXT["C16"] = {
+    "level_text": "Kernel-checked for every engine state: uci yields exactly the two id lines and uciok, isready yields readyok, a blank line or a line whose first token is not a command yields nothing and changes nothing (unknown_silent), quit ends the run with status 0 and later lines are ignored, and a run whose input ends terminates with status 0 (eof_exits_zero); transcripts compose. The end-of-input defect (infinite loop) was reproduced on the pinned binary and repaired by a fix: commit. The real binary is run on generated scripts and must match the model transcript and exit with status 0.",
+    "design_ref": "DESIGN.md section 6, C16",
+    "level_note": "Proof for the transcript logic; exit status and absence of a hang observed black-box.",
+    "technique": "Lean 4 proofs over the UCI loop model + black-box transcript and exit-status comparison",
+}
